@@ -15,6 +15,7 @@ import Driver.ReprCmd
 import Driver.PyzxCmd
 import Driver.LayoutCmd
 import Driver.ParamCmd
+import Driver.GatesCmd
 
 def handlers : List (String → List String → Option String) :=
   [ DV.CoreCmd.handle
@@ -26,6 +27,7 @@ def handlers : List (String → List String → Option String) :=
   , DV.PyzxCmd.handle
   , DV.LayoutCmd.handle
   , DV.ParamCmd.handle
+  , DV.GatesCmd.handle
   ]
 
 def handle (line : String) : String :=
